@@ -46,6 +46,7 @@ func checkC04(c *Ctx, r *Report) {
 			r.add("C04.R3.pointer-exit-length", o.Construct, o.Status, o.Pos, o.Detail)
 		}
 	}
+	unpackExits(c, r, "C04.R2.unpack-exits", "wire data that is valid for the type (for instance a name that another implementation compressed, which every type must accept on input) is refused")
 }
 
 // c04R4b: the map accessors index with the key they are given (no normalisation inside find/insert).
